@@ -3,8 +3,11 @@ package buildsim
 import (
 	"context"
 	"fmt"
+	"github.com/bufbuild/buf/private/bufpkg/bufimage"
+	"github.com/bufbuild/buf/private/bufpkg/bufimage/bufimageutil"
 	"io/fs"
 	"sort"
+	"strings"
 	"time"
 
 	"github.com/bufbuild/buf/private/bufpkg/bufmodule"
@@ -181,4 +184,49 @@ func (m *bsim) remoteOutput(ctx context.Context) (string, error) {
 		out += l + "\n"
 	}
 	return out + dot, nil
+}
+
+// publicHubOutput: top.proto imports hub.proto, which publicly imports 3-8 leaf files; top uses a type of
+// every leaf without importing one of them itself. The image restricted to top's message (buf build --type)
+// must list the dependencies of top.proto in the same order every time - the ones picked up through the
+// hub's public imports included. Executed several times per execution: the code walks Go maps.
+func (m *bsim) publicHubOutput(ctx context.Context) (string, error) {
+	n := m.hubLeaves
+	bucket := storagemem.NewReadWriteBucket()
+	var hub, top strings.Builder
+	hub.WriteString("syntax = \"proto3\";\npackage hub;\n")
+	top.WriteString("syntax = \"proto3\";\npackage hub;\nimport \"hub/hub.proto\";\nmessage Top {\n")
+	for i := 0; i < n; i++ {
+		fmt.Fprintf(&hub, "import public \"hub/leaf%d.proto\";\n", i)
+		fmt.Fprintf(&top, "  Leaf%d l%d = %d;\n", i, i, i+1)
+		if err := storage.PutPath(ctx, bucket, fmt.Sprintf("hub/leaf%d.proto", i), []byte(fmt.Sprintf("syntax = \"proto3\";\npackage hub;\nmessage Leaf%d { string s = 1; }\n", i))); err != nil {
+			return "", err
+		}
+	}
+	top.WriteString("}\n")
+	if err := storage.PutPath(ctx, bucket, "hub/hub.proto", []byte(hub.String())); err != nil {
+		return "", err
+	}
+	if err := storage.PutPath(ctx, bucket, "hub/top.proto", []byte(top.String())); err != nil {
+		return "", err
+	}
+	builder := bufmodule.NewModuleSetBuilder(ctx, slogext.NopLogger, bufmodule.NopModuleDataProvider, bufmodule.NopCommitProvider)
+	builder.AddLocalModule(bucket, "hub-bucket", true)
+	moduleSet, err := builder.Build()
+	if err != nil {
+		return "", err
+	}
+	image, err := bufimage.BuildImage(ctx, slogext.NopLogger, bufmodule.ModuleSetToModuleReadBucketWithOnlyProtoFiles(moduleSet))
+	if err != nil {
+		return "", err
+	}
+	filtered, err := bufimageutil.FilterImage(image, bufimageutil.WithIncludeTypes("hub.Top"))
+	if err != nil {
+		return "", err
+	}
+	out := ""
+	for _, f := range filtered.Files() {
+		out += f.Path() + " <- " + strings.Join(f.FileDescriptorProto().GetDependency(), ",") + "\n"
+	}
+	return out, nil
 }
